@@ -49,8 +49,18 @@ Record use_stmt := { u_target : str; u_only : option (list (str * str)); u_renam
 
 (* m_access: PUBLIC/PRIVATE statements naming entities that are not declared in the module itself
    (true = public).  The accessibility of own declarations is already resolved in d_perm (C04). *)
+(* A scope nested in a module that has USE statements of its own: a module procedure, an internal
+   procedure, or the body of an interface.  [s_path] names the scopes from the module's child down
+   to the scope itself, [s_kinds] their kinds (same length).  The list of nested scopes of a
+   module is flat; hosts are recovered from the paths. *)
+Inductive nkind := NRoutine    (* function / subroutine: in `routines` of its host *)
+                 | NIfBody     (* body of a non-generic, non-abstract interface block *)
+                 | NAbsBody    (* body of an abstract interface block *)
+                 | NGenBody.   (* body written inside a generic interface block *)
+Record nscope := { s_path : list str; s_kinds : list nkind; s_decls : list decl; s_uses : list use_stmt }.
+
 Record module := { m_name : str; m_default : perm; m_decls : list decl;
-                   m_access : list (str * bool); m_uses : list use_stmt }.
+                   m_access : list (str * bool); m_uses : list use_stmt; m_nested : list nscope }.
 
 Definition graph := list module.
 
@@ -136,10 +146,49 @@ Definition correlate_module (c : cls) (g : graph) (st : state) (n : str) : state
 Definition correlate_all (c : cls) (g : graph) (order : list str) : state :=
   fold_left (correlate_module c g) order (init_state c g).
 
+(* A nested scope S of module M is correlated inside M.correlate, i.e. when exactly the modules
+   before M in the processing order have merged their imports.  The entries its own USE statements
+   add to its dictionaries are those of the module rule applied with an empty PUBLIC filter;
+   [as_module] views the scope as a module for that purpose. *)
+Fixpoint before (n : str) (o : list str) : list str :=
+  match o with
+  | [] => []
+  | x :: o' => if str_eqb x n then [] else x :: before n o'
+  end.
+Definition as_module (M : module) (S : nscope) : module :=
+  {| m_name := m_name M; m_default := Public; m_decls := s_decls S; m_access := []; m_uses := s_uses S;
+     m_nested := [] |}.
+Definition nested_imports_model (c : cls) (g : graph) (order : list str) (M : module) (S : nscope) : table :=
+  snd (fold_left (use_step g (as_module M S) (st_tabs (correlate_all c g (before (m_name M) order))))
+                 (s_uses S) ([], [])).
+(* the hosts of S inside M (S included): the nested scopes whose path is a prefix of S's *)
+Fixpoint prefix_b (a b : list str) : bool :=
+  match a, b with
+  | [], _ => true
+  | x :: a', y :: b' => str_eqb x y && prefix_b a' b'
+  | _ :: _, [] => false
+  end.
+Definition hosts (M : module) (S : nscope) : list nscope :=
+  filter (fun H => prefix_b (s_path H) (s_path S)) (m_nested M).
+(* a lower bound of what the dictionary of class c of scope S holds when S is correlated: the
+   module's dictionary (host association through the shared / copied dictionaries) and what the
+   USE statements of S and of its hosts add.  Declarations local to procedures also end up in
+   these dictionaries (C07); they are not part of this model. *)
+Definition nested_lower_model (c : cls) (g : graph) (order : list str) (M : module) (S : nscope) : list (str * ent) :=
+  snd (st_tabs (correlate_all c g order) M)
+  ++ flat_map (nested_imports_model c g order M) (hosts M S).
+
 (* toposort_flatten over {module: modules it uses}: self-dependencies are discarded, every round
    takes the modules all of whose dependencies are done; None = CircularDependencyError *)
+(* get_deps: the USE statements of the module, and recursively those of `routines` and of the
+   `procedure` of the entries of `interfaces` that have one (non-generic interface bodies).  The
+   bodies of abstract interfaces and of generic interface blocks are not visited. *)
+Definition counted_kind (k : nkind) : bool := match k with NRoutine | NIfBody => true | _ => false end.
+Definition counted (S : nscope) : bool := forallb counted_kind (s_kinds S).
+Definition nested_targets (M : module) : list str :=
+  flat_map (fun S => if counted S then map u_target (s_uses S) else []) (m_nested M).
 Definition resolved_targets (g : graph) (M : module) : list str :=
-  filter (fun t => str_in t (names g)) (map u_target (m_uses M)).
+  filter (fun t => str_in t (names g)) (map u_target (m_uses M) ++ nested_targets M).
 Definition deps (g : graph) (M : module) : list str :=
   filter (fun t => negb (str_eqb t (m_name M))) (resolved_targets g M).
 Fixpoint topo_rounds (fuel : nat) (g : graph) (rem : list module) (done : list str) : option (list str) :=
@@ -165,7 +214,8 @@ Definition ford_tables (c : cls) (g : graph) : option state :=
 (* [order] lists every module once and every module after the modules it uses (a module that
    names itself in a USE statement is not a dependency of itself, as in toposort) *)
 Definition no_self_use (g : graph) : bool :=
-  forallb (fun M => forallb (fun u => negb (str_eqb (u_target u) (m_name M))) (m_uses M)) g.
+  forallb (fun M => forallb (fun u => negb (str_eqb (u_target u) (m_name M)))
+                            (m_uses M ++ flat_map s_uses (m_nested M))) g.
 Fixpoint nodup_b (l : list str) : bool :=
   match l with [] => true | x :: l' => negb (str_in x l') && nodup_b l' end.
 Fixpoint topo_from (g : graph) (seen : list str) (o : list str) : bool :=
@@ -234,6 +284,14 @@ Definition accessible (c : cls) (g : graph) (M : module) := accessible_n (length
 Definition scope (c : cls) (g : graph) (M : module) : list (str * ent) :=
   own_scope c M ++ imports g M (accessible_n (length g) c g).
 
+(* nested scopes: identifiers of class c that scope S of module M obtains by use association
+   (its own USE statements), and the use-associated or module-level identifiers it can reference
+   (its own, those of its hosts, the module's scope by host association) *)
+Definition nested_imports (c : cls) (g : graph) (M : module) (S : nscope) : list (str * ent) :=
+  imports g (as_module M S) (accessible_n (length g) c g).
+Definition nested_lower_spec (c : cls) (g : graph) (M : module) (S : nscope) : list (str * ent) :=
+  scope c g M ++ flat_map (nested_imports c g M) (hosts M S).
+
 (* ------------------------------------------------------------------ comparison, wf, regions *)
 
 Fixpoint functional_b (l : list (str * ent)) : bool :=
@@ -261,7 +319,16 @@ Definition wf_module (g : graph) (M : module) : bool :=
   && functional_b (scope_all g M)
   && forallb (fun ne => negb (declared M (fst ne)))
              (flat_map (fun c => imports g M (accessible_n (length g) c g)) all_cls).
-Definition wf_graph (g : graph) : bool := nodup_b (names g) && forallb (wf_module g) g.
+(* nested scopes: the identifiers a scope obtains by use association are unambiguous *)
+Definition wf_nested (g : graph) (M : module) (S : nscope) : bool :=
+  functional_b (flat_map (fun c => nested_imports c g M S) all_cls)
+  && forallb (fun ne => negb (str_in (fst ne) (map d_name (s_decls S))))
+             (flat_map (fun c => nested_imports c g M S) all_cls).
+Definition wf_graph (g : graph) : bool :=
+  nodup_b (names g) && forallb (wf_module g) g
+  && forallb (fun M => forallb (wf_nested g M) (m_nested M)) g
+  && forallb (fun M => forallb (fun u => negb (str_eqb (u_target u) (m_name M)))
+                               (flat_map s_uses (m_nested M))) g.
 
 (* regions of the known findings (decidable on the input) *)
 (* 1: a module is used without ONLY while some USE statement of the same scope renames one of
@@ -282,10 +349,19 @@ Definition region_only_empty_m (M : module) : bool :=
 (* 4: an ONLY list naming the same entity twice ( only: foo, bar => foo ) *)
 Definition region_only_dup_m (M : module) : bool :=
   existsb (fun u => match u_only u with Some items => negb (nodup_b (map snd items)) | None => false end) (m_uses M).
-Definition region_rename (g : graph) := existsb region_rename_m g.
+(* 5: a USE statement in the body of an abstract interface or of a generic interface block (or
+      below one): get_deps does not see it, so the module may be correlated before the used one *)
+Definition region_uncounted_m (M : module) : bool :=
+  existsb (fun S => negb (counted S) && negb (match s_uses S with [] => true | _ => false end)) (m_nested M).
+(* the regions 1, 3, 4 are about USE statements wherever they stand: the statements of nested
+   scopes count (each scope on its own, as the rules are per scoping unit) *)
+Definition with_nested (r : module -> bool) (M : module) : bool :=
+  r M || existsb (fun S => r (as_module M S)) (m_nested M).
+Definition region_rename (g : graph) := existsb (with_nested region_rename_m) g.
 Definition region_private (g : graph) := existsb region_private_m g.
-Definition region_only_empty (g : graph) := existsb region_only_empty_m g.
-Definition region_only_dup (g : graph) := existsb region_only_dup_m g.
+Definition region_only_empty (g : graph) := existsb (with_nested region_only_empty_m) g.
+Definition region_only_dup (g : graph) := existsb (with_nested region_only_dup_m) g.
+Definition region_uncounted (g : graph) := existsb region_uncounted_m g.
 Definition no_region (g : graph) : bool :=
   negb (region_rename g) && negb (region_private g) && negb (region_only_empty g) && negb (region_only_dup g).
 
